@@ -281,7 +281,131 @@ const maxPaths = 1500
 
 type shape int
 
+// genMergeGroups: plans built around merge groups of createMultiFetch whose members have OVERLAPPING
+// dependency lists in a fixed (unshuffled) order: a shared prefix followed by distinct tails
+// ([0 1] / [0 2]), ordered sub-lists of the providers that overlap in the middle ([0 1 3] / [1 2]),
+// repeated entries inside one list ([0 0 1]), a tail member whose list is a strict prefix of an earlier
+// one. unionDependencies has to keep every entry's first occurrence, in member (= id) order, whatever
+// precedes it in the list. Providers are roots or a root plus a layer behind it; all members of a
+// group then share a wave in the legacy organisation; a few dependants hang off members (redirect of
+// merged-away ids) and providers.
+func genMergeGroups(r *common.Rand) []fetch {
+	np := 2 + r.Pick(4)
+	layered := r.Chance(1, 3)
+	type proto struct {
+		deps []int // positions
+		cand bool
+		ds   int
+	}
+	var ps []proto
+	for i := 0; i < np; i++ {
+		p := proto{}
+		if layered && i > 0 && r.Chance(2, 3) {
+			p.deps = []int{0}
+		}
+		ps = append(ps, p)
+	}
+	// providers that every member may list without leaving the last wave of providers
+	ng := 1 + r.Pick(2)
+	var memberPos []int
+	for g := 0; g < ng; g++ {
+		nm := 2 + r.Pick(3)
+		order := r.Perm(np)
+		plen := 1 + r.Pick(min(np-1, 2))
+		prefix := order[:plen]
+		rest := order[plen:]
+		style := r.Pick(3)
+		for m := 0; m < nm; m++ {
+			var deps []int
+			switch style {
+			case 0, 1: // shared prefix (sometimes cut short), then a tail of the member's own
+				k := plen
+				if r.Chance(1, 4) {
+					k = 1 + r.Pick(plen)
+				}
+				deps = append(deps, prefix[:k]...)
+				if len(rest) > 0 && (style == 0 || r.Chance(3, 4)) {
+					t := r.Pick(len(rest))
+					deps = append(deps, rest[t])
+					if r.Chance(1, 3) {
+						deps = append(deps, rest[(t+1+r.Pick(len(rest)))%len(rest)])
+					}
+				}
+			default: // ordered sub-list of all providers, each kept with probability 1/2 (at least one)
+				for _, p := range order {
+					if r.Chance(1, 2) {
+						deps = append(deps, p)
+					}
+				}
+				if len(deps) == 0 {
+					deps = append(deps, order[r.Pick(np)])
+				}
+			}
+			// repeated entries are legal; remove accidental repeats first so that they stay rare and deliberate
+			seen := map[int]bool{}
+			uniq := deps[:0]
+			for _, d := range deps {
+				if !seen[d] {
+					seen[d] = true
+					uniq = append(uniq, d)
+				}
+			}
+			deps = uniq
+			if r.Chance(1, 5) {
+				at := r.Pick(len(deps) + 1)
+				dup := deps[r.Pick(len(deps))]
+				deps = append(deps[:at], append([]int{dup}, deps[at:]...)...)
+			}
+			memberPos = append(memberPos, len(ps))
+			ps = append(ps, proto{deps: deps, cand: true, ds: g})
+		}
+	}
+	for k := r.Pick(4); k > 0; k-- {
+		p := proto{deps: []int{memberPos[r.Pick(len(memberPos))]}}
+		if r.Chance(1, 2) {
+			p.deps = append(p.deps, r.Pick(np))
+		}
+		if r.Chance(1, 3) {
+			p.cand, p.ds = true, r.Pick(ng+1)
+		}
+		ps = append(ps, p)
+	}
+	n := len(ps)
+	id := make([]int, n)
+	for i := range id {
+		id[i] = i
+	}
+	absent := []int{n, n + 1}
+	if r.Chance(1, 2) {
+		perm := r.Perm(n + 2 + r.Pick(3))
+		id, absent = perm[:n], perm[n:]
+	}
+	oddEnv := r.Chance(1, 10)
+	dag := make([]fetch, n)
+	for i, p := range ps {
+		f := fetch{id: id[i], cand: p.cand, ds: p.ds}
+		for _, d := range p.deps {
+			f.deps = append(f.deps, id[d])
+		}
+		if p.cand && r.Chance(1, 8) {
+			at := r.Pick(len(f.deps) + 1)
+			f.deps = append(f.deps[:at], append([]int{absent[r.Pick(len(absent))]}, f.deps[at:]...)...)
+		}
+		if p.cand && oddEnv && r.Chance(1, 4) {
+			f.env = 1
+		}
+		dag[i] = f
+	}
+	if r.Chance(1, 2) {
+		r.Shuffle(n, func(a, b int) { dag[a], dag[b] = dag[b], dag[a] })
+	}
+	return dag
+}
+
 func genDAG(r *common.Rand) []fetch {
+	if r.Chance(1, 5) {
+		return genMergeGroups(r)
+	}
 	n := 1 + r.Pick(8)
 	switch r.Pick(10) {
 	case 0, 1, 2:
